@@ -36,6 +36,16 @@ func TestC01_History(t *testing.T) {
 				}
 			}
 		}
+		if rapid.IntRange(0, 3).Draw(rt, "poison") == 0 {
+			// a listener that panics on a document before acknowledging it (one or two deliveries of the history)
+			n := 0
+			for i := range sc.Ops {
+				if sc.Ops[i].Op == "deliver" && i%7 == 3 && n < 2 {
+					sc.Ops[i].Panic = true
+					n++
+				}
+			}
+		}
 		journal("C01", "c01hist", sc)
 		v, labels, excl := runHistory(&sc, known != nil, "C01")
 		journalDone()
